@@ -100,4 +100,50 @@ theorem trans_readHeadersFromFile (f : Atom) (sz lo hi : Nat) (f1 : Atom → Lis
       cases hb : (f1 f (List.replicate ((hi - lo + 1) * sz) 0) ((lo * sz : Nat) : Int)).2 <;> simp_all
     rw [this]
 
+/-! ### start-up reconciliation arithmetic (`trimPartialHeader`, `resetInterruptedInit`) -/
+
+/-- **`trimPartialHeader` as the code spells it**: for a file of `n` whole entries of `z` bytes
+followed by `junk < z` bytes of a torn append, nothing is done when `junk = 0`, and otherwise the file
+is truncated to exactly the `n` whole entries (`n * z` bytes) - never into an entry, never keeping a
+torn byte.  `Stat` / `Size` failures are passed on. -/
+theorem trans_trimPartialHeader (size : Atom → Int) (fi : Atom) (trunc : Int → Bool) (n junk z : Nat)
+    (hz : junk < z) (hsize : size fi = ((n * z + junk : Nat) : Int)) :
+    trimPartialHeader size (fi, false) trunc ((z : Int), false)
+      = (if junk = 0 then false else trunc ((n * z : Nat) : Int)) := by
+  unfold trimPartialHeader
+  simp only [↓reduceIte, hsize]
+  have hmod : Int.tmod ((n * z + junk : Nat) : Int) (z : Int) = (junk : Int) := by
+    rw [Int.tmod_eq_emod_of_nonneg (Int.natCast_nonneg _)]
+    have : (n * z + junk) % z = junk := by
+      rw [Nat.add_comm, Nat.add_mul_mod_self_right, Nat.mod_eq_of_lt hz]
+    exact_mod_cast this
+  rw [hmod]
+  by_cases hj : junk = 0
+  · subst hj; simp
+  · have : ¬ ((junk : Int) = 0) := by omega
+    simp only [this, hj, ↓reduceIte]
+    congr 1
+    push_cast
+    omega
+
+theorem trans_trimPartialHeader_err (size : Atom → Int) (st : Atom × Bool) (trunc : Int → Bool) (sz : Int × Bool)
+    (h : st.2 = true ∨ sz.2 = true) : trimPartialHeader size st trunc sz = true := by
+  unfold trimPartialHeader
+  simp only []
+  rcases h with h | h <;> (repeat' split) <;> simp_all
+
+/-- **`resetInterruptedInit` as the code spells it**: the file is emptied (and 0 returned) exactly
+when it holds nothing but one entry and the index has no chain tip; in every other case the size is
+returned unchanged and the file is not touched; lookup failures are passed on. -/
+theorem trans_resetInterruptedInit (fileSize : Int) (trunc : Int → Bool) (hasTip : Bool) (z : Int) :
+    resetInterruptedInit fileSize trunc (hasTip, false) (z, false)
+      = (if fileSize = z ∧ hasTip = false then (0, trunc 0) else (fileSize, false)) := by
+  unfold resetInterruptedInit
+  simp only [↓reduceIte]
+  by_cases h1 : fileSize = z
+  · cases hasTip
+    · cases ht : trunc 0 <;> simp [h1, ht]
+    · simp [h1]
+  · simp [h1]
+
 end Neutrino.Store
